@@ -72,8 +72,10 @@ def make_fasta(records, eol=b"\n", final_newline=True, desc=False):
     last = len(records) - 1
     for i, (name, seq, width) in enumerate(records):
         out.write(b">" + name.encode())
-        if desc:
+        if desc is True:
             out.write(b" some description 1-2")
+        elif desc:
+            out.write(desc)  # bytes appended to the header line as they are (e.g. trailing blank or tab)
         out.write(eol)
         off = out.tell()
         lines = [seq[k : k + width] for k in range(0, len(seq), width)]
